@@ -18,6 +18,7 @@ type Bar struct {
 	index        int  // used by heap
 	priority     int  // used by heap
 	dropped      bool // used by (*pState).flush and (*Progress).Add, set when bar leaves the heap for good
+	popping      bool // used by (*pState).flush and heapManager, set when bar has been moved to the top to pop out
 	frameCh      chan *renderFrame
 	operateState chan func(*bState)
 	container    *Progress
